@@ -126,4 +126,7 @@ open Frrs.Pipe in
 theorem run_order : CalledBefore Extracted.runEvents .validateOptions [.preflight, .createBackup, .fetchAllRefs, .migrateOrigin, .streamRun] = true := by
   decide +kernel
 
+/-- the data-block limit of the model is the one in limits.rs (extracted on every run) -/
+theorem data_block_limit_is_the_codes : Pipe.constOf Extracted.consts .maxDataBlockSize = some maxDataBlock := by decide +kernel
+
 end Frrs.C10
